@@ -206,6 +206,29 @@ struct G {
 	}
 	std::vector<DccAspect> dcc_aspects() {
 		std::vector<DccAspect> v;
+		static const char *rnames[] = {"normal", "reverse", "go", "stop"};
+		if (dp.chance(45)) {
+			// "ragged" accessory: the aspects do not all name the same ports - one port of its own per aspect, the last aspect
+			// optionally with a second port. No aspect's (port, value) set is contained in another's, so the set is unambiguous
+			// under every reading of "same port combination".
+			int n = dp.range(2, 3);
+			std::vector<uint8_t> ports;
+			std::set<int> ps;
+			for (int i = 0; i < n + 1; i++) {
+				int p = (int) dp.pick(32), guard = 0;
+				while (!ps.insert(p).second) { p = (p + 1) % 32; if (guard++ > 40) break; }
+				ports.push_back((uint8_t) p);
+			}
+			bool extra = dp.flag();
+			for (int i = 0; i < n; i++) {
+				DccAspect a;
+				a.id = rnames[i];
+				a.ports.push_back({ports[(size_t) i], (uint8_t) dp.pick(2)});
+				if (extra && i == n - 1) a.ports.push_back({ports[(size_t) n], (uint8_t) dp.pick(2)});
+				v.push_back(a);
+			}
+			return v;
+		}
 		int nports = dp.range(1, 3);
 		std::vector<uint8_t> ports;
 		std::set<int> ps;
